@@ -9,6 +9,7 @@ import (
 	"math"
 	"strings"
 	"sync"
+	"sync/atomic"
 	"testing/iotest"
 	"time"
 
@@ -1044,6 +1045,82 @@ func genToken(c *Ctx) {
 			want = WList(WStrs([]string{"ka", "path", "limit"}), WStrs([]string{"kb", "path", "limit"}), WStrs([]string{"path", "limit", "later"}))
 		}
 		c.Emit("tok/args-shared", WList(WStr("seq"), WList(want)), obs)
+	}
+
+	// ---- 3b2. a forged token (a same-length rewrite of a field behind a 2 MiB argument, under the old signature)
+	// decoded again and again while other goroutines decode the genuine one: refused every time, and the genuine
+	// one accepted every time
+	for ki := range e.keys {
+		p := &e.keys[ki]
+		if p.name != "ed25519" && p.name != "p256" {
+			continue
+		}
+		blob := bytes.Repeat([]byte("0123456789abcdef"), (2<<20)/16)
+		inv, err := invocation.New(p.did, p.did, command.Command("/pay"), nil, invocation.WithArgument("blob", blob), invocation.WithArgument("recipient", "alice@x"))
+		if err != nil {
+			continue
+		}
+		sealed, _, err := inv.ToSealed(p.priv)
+		if err != nil || bytes.Count(sealed, []byte("alice@x")) != 1 {
+			continue
+		}
+		forged := bytes.Replace(sealed, []byte("alice@x"), []byte("mallory"), 1)
+		sigOK := func(b []byte) bool {
+			n, err := ipld.Decode(b, dagcbor.Decode)
+			if err != nil {
+				return false
+			}
+			sg, _ := n.LookupByIndex(0)
+			sp, _ := n.LookupByIndex(1)
+			sgb, _ := sg.AsBytes()
+			ok, _ := p.pub.Verify(cborOf(sp), sgb)
+			return ok
+		}
+		var stop atomic.Bool
+		var genuineRefused, forgedAccepted atomic.Int64
+		var wg sync.WaitGroup
+		for g := 0; g < 4; g++ {
+			wg.Add(1)
+			go func(g int) {
+				defer wg.Done()
+				for !stop.Load() {
+					var err error
+					if g%2 == 0 {
+						_, _, err = token.FromSealed(sealed)
+					} else {
+						_, _, err = invocation.FromSealed(sealed)
+					}
+					if err != nil {
+						genuineRefused.Add(1)
+					}
+				}
+			}(g)
+		}
+		deadline := time.Now().Add(1500 * time.Millisecond)
+		if c.Thorough() {
+			deadline = time.Now().Add(20 * time.Second)
+		}
+		for time.Now().Before(deadline) {
+			if _, _, err := invocation.FromSealed(forged); err == nil {
+				forgedAccepted.Add(1)
+			}
+			if _, _, err := token.FromSealed(forged); err == nil {
+				forgedAccepted.Add(1)
+			}
+			if _, err := token.FromDagCbor(forged); err == nil {
+				forgedAccepted.Add(1)
+			}
+		}
+		stop.Store(true)
+		wg.Wait()
+		verdict := func(accepted bool) W {
+			if accepted {
+				return WStr("accepted")
+			}
+			return WStr("refused")
+		}
+		c.Emit("tok/concurrent/forged-"+p.name, WList(WStr("concurrent"), WStr("forged"), WBool(sigOK(forged))), verdict(forgedAccepted.Load() > 0))
+		c.Emit("tok/concurrent/genuine-"+p.name, WList(WStr("concurrent"), WStr("genuine"), WBool(sigOK(sealed))), verdict(genuineRefused.Load() == 0))
 	}
 
 	// ---- 3c. Go values with byte strings below the top level (maps, slices, named types): stored as exactly
